@@ -15,6 +15,7 @@ import (
 	"fmt"
 	"strings"
 	"sync"
+	"time"
 
 	"github.com/notaryproject/notation-go"
 	"github.com/notaryproject/notation-go/verifharness/lib"
@@ -35,6 +36,7 @@ type srepo struct {
 	pages    []int
 	wrap     bool
 	blobs    [][]byte // real envelopes (real-verifier mode) or nil
+	blobMT   []string
 	mu       sync.Mutex
 	log      []call
 }
@@ -44,6 +46,9 @@ func (r *srepo) add(op string, i int) {
 	r.log = append(r.log, call{op, i})
 	r.mu.Unlock()
 }
+
+// mtOf: the envelope formats alternate along the listing (scripted mode)
+func mtOf(i int) string { return lib.Formats[i%2] }
 
 func sigDesc(i int) ocispec.Descriptor {
 	return ocispec.Descriptor{MediaType: ocispec.MediaTypeImageManifest, Digest: digest.FromString(fmt.Sprint("sig", i)), Size: int64(100 + i)}
@@ -79,9 +84,9 @@ func (r *srepo) FetchSignatureBlob(ctx context.Context, d ocispec.Descriptor) ([
 				return nil, ocispec.Descriptor{}, errors.New("unfetchable")
 			}
 			if r.blobs != nil {
-				return r.blobs[i], ocispec.Descriptor{MediaType: lib.MediaJWS, Digest: digest.FromBytes(r.blobs[i]), Size: int64(len(r.blobs[i]))}, nil
+				return r.blobs[i], ocispec.Descriptor{MediaType: r.blobMT[i], Digest: digest.FromBytes(r.blobs[i]), Size: int64(len(r.blobs[i]))}, nil
 			}
-			return []byte{r.listing[i], byte(i)}, ocispec.Descriptor{MediaType: lib.MediaJWS}, nil
+			return []byte{r.listing[i], byte(i)}, ocispec.Descriptor{MediaType: mtOf(i)}, nil
 		}
 	}
 	r.add("fetch", 99)
@@ -99,6 +104,9 @@ type sver struct {
 
 func (v *sver) Verify(ctx context.Context, desc ocispec.Descriptor, sig []byte, opts notation.VerifierVerifyOptions) (*notation.VerificationOutcome, error) {
 	v.repo.add("verify", int(sig[1]))
+	if opts.SignatureMediaType != mtOf(int(sig[1])) {
+		v.repo.add("verify-with-wrong-media-type", int(sig[1]))
+	}
 	out := &notation.VerificationOutcome{RawSignature: sig, VerificationLevel: trustpolicy.LevelStrict}
 	if sig[0] == 'v' {
 		return out, nil
@@ -176,6 +184,11 @@ type scenario struct {
 	real    bool
 }
 
+// realCOSE signs a COSE envelope; the signing time is shifted by the index so that the bytes are distinct per position.
+func realCOSE(signer *lib.Ent, artifact ocispec.Descriptor, i int) []byte {
+	return lib.MustCoreSign(lib.SignSpec{Format: lib.MediaCOSE, Payload: lib.Payload(artifact), Signer: signer, SigningTime: time.Now().Add(-time.Duration(i+2) * time.Hour)})
+}
+
 func (s scenario) String() string {
 	return fmt.Sprintf("listing=%q pages=%v N=%d ref=%s skip=%v wrap=%v real=%v", s.listing, s.pages, s.N, s.ref, s.skip, s.wrap, s.real)
 }
@@ -208,7 +221,7 @@ func main() {
 	for _, ls := range listings {
 		for _, pg := range pagings(len(ls), true) {
 			for _, N := range []int{-1, 0, 1, 2, 3, 4, 5, 6, 7} {
-				for _, ref := range []string{"tag", "digest", "mismatch", "none"} {
+				for _, ref := range []string{"tag", "digest", "mismatch", "mismatch-sha512", "none"} {
 					for _, skip := range []bool{false, true} {
 						for _, wrap := range []bool{false, true} {
 							if ref != "tag" && ref != "digest" && wrap {
@@ -232,7 +245,7 @@ func main() {
 	for k := 0; k < nReal; k++ {
 		ls := listings[rng.Intn(len(listings))]
 		pgs := pagings(len(ls), true)
-		scen = append(scen, scenario{listing: ls, pages: pgs[rng.Intn(len(pgs))], N: rng.Intn(8), ref: []string{"digest", "digest", "digest", "mismatch"}[rng.Intn(4)] /* the real verifier needs a digest reference for policy selection */, skip: rng.Intn(6) == 0, wrap: rng.Bool(), real: true})
+		scen = append(scen, scenario{listing: ls, pages: pgs[rng.Intn(len(pgs))], N: rng.Intn(8), ref: []string{"digest", "digest", "digest", "mismatch", "mismatch-sha512"}[rng.Intn(5)] /* the real verifier needs a digest reference for policy selection */, skip: rng.Intn(6) == 0, wrap: rng.Bool(), real: true})
 	}
 	mkReal := func(skip bool) *rver {
 		sv := trustpolicy.SignatureVerification{VerificationLevel: "strict"}
@@ -254,15 +267,24 @@ func main() {
 		var v notation.Verifier
 		if s.real {
 			repo.blobs = make([][]byte, n)
+			repo.blobMT = make([]string, n)
 			for i := range s.listing {
+				repo.blobMT[i] = lib.MediaJWS
+				cose := (i+si)%3 == 0 // formats are mixed along the listing
 				switch s.listing[i] {
 				case 'v':
-					repo.blobs[i] = append([]byte(nil), goodSig...)
-					repo.blobs[i] = append(repo.blobs[i], strings.Repeat(" ", i)...) // distinct bytes per index, same JSON
-				case 'i':
-					if i%2 == 0 {
-						repo.blobs[i] = append(append([]byte(nil), badSig...), strings.Repeat(" ", i)...)
+					if cose {
+						repo.blobs[i], repo.blobMT[i] = realCOSE(trusted, artifact, i), lib.MediaCOSE
 					} else {
+						repo.blobs[i] = append(append([]byte(nil), goodSig...), strings.Repeat(" ", i)...) // distinct bytes per index, same JSON
+					}
+				case 'i':
+					switch {
+					case cose:
+						repo.blobs[i], repo.blobMT[i] = realCOSE(untrusted, artifact, i), lib.MediaCOSE
+					case i%2 == 0:
+						repo.blobs[i] = append(append([]byte(nil), badSig...), strings.Repeat(" ", i)...)
+					default:
 						repo.blobs[i] = append(append([]byte(nil), wrongArtifactSig...), strings.Repeat(" ", i)...)
 					}
 				}
@@ -281,6 +303,8 @@ func main() {
 			ref += "@" + artifact.Digest.String()
 		case "mismatch":
 			ref += "@" + other.String()
+		case "mismatch-sha512":
+			ref += "@" + digest.SHA512.FromString("c10 artifact").String() // another algorithm is still another digest
 		}
 		desc, outs, err := notation.Verify(context.Background(), v, repo, notation.VerifyOptions{ArtifactReference: ref, MaxSignatureAttempts: s.N})
 
@@ -291,7 +315,7 @@ func main() {
 		case s.N <= 0:
 		case s.skip:
 			wantOK = true
-		case s.ref == "none", s.ref == "mismatch":
+		case s.ref == "none", s.ref == "mismatch", s.ref == "mismatch-sha512":
 		default:
 			reachList = true
 			lim := n
@@ -377,6 +401,8 @@ func main() {
 				if wantOK && istar >= 0 && c.idx > istar {
 					r.Violation(sig("trace-fetch-after-first-good"), fmt.Sprintf("signature #%d fetched after the first good signature #%d", c.idx+1, istar+1), wit)
 				}
+			case "verify-with-wrong-media-type":
+				r.Violation(sig("trace-verify-media-type"), fmt.Sprintf("signature #%d was handed to the verifier with a media type other than the one its envelope was fetched with", c.idx+1), wit)
 			case "verify":
 				verifies++
 				if !fetched[c.idx] {
